@@ -405,9 +405,15 @@ example : ValidIltc ⟨fRadixFormat, ⟨0xa0a0a006400005f00000fff0000000c⟩, tr
 example : (parseFloatSyntax ⟨fFormat, ⟨0xa0a0a000000005f00000fff0000000c⟩, true⟩ {} false
     ([49, 95, 50, 46, 95, 51, 95] ++ inFrac.drop 6 ++ [48, 49, 50, 95])).toBool = true := by decide +kernel
 
-/-! ## Full statement (target, not proved): every valid format outside the I+T+C re-scan class
+/-! ## Full statement (target, not proved): every valid format outside the two witnessed classes
 
-Supported by the searches described at the top (no other panicking class found), not by a proof. -/
+Proved sub-classes: Parts 2–4 (integer / fraction component `noskip` or `iltc`; exponent and special arbitrary).
+Open: integer / fraction component with one of `i l t il it lt ilt ic lc tc ilc ltc` (and `itc` on the integer
+without base prefix) — there the first pass and the re-scan of the stored slice have to be shown to take the same
+skip decisions (they differ only in the bytes before the slice start and after its end, and in
+`current_count() == 0`; note that for `parse_number` called on an arbitrary cursor with non-zero counts or a digit
+before the cursor this is false, so the statement is about the entry points). Supported by the searches described
+at the top (15×15 flag combinations × template inputs, 550k random parses: no other panicking class), not by a proof. -/
 
 /-- component `k` has a separator byte and the flags internal + trailing + consecutive without leading -/
 def hasItc (c : Cfg) (k : Comp) : Bool :=
